@@ -240,9 +240,9 @@ func propSpecs() map[string]*PropSpec {
 		Quick:    c06(),
 		Thorough: c06(),
 		Covers:   []string{"compiled", "meaning-checked", "suffix-checked", "breaks-rule"},
-		Bounds: map[string]string{"quick": "22 use sites (operand of each operator class, under a sign, index base and index, in-list item, call argument, row counts, sort key, join conditions, quoted / qualified / function-name / table-name / alias contexts, built-in constant and function names) x 10 let prefixes (chains, shadowing, signed and compound values, parameter in a let value) x 3 suffixes (lets after the query) x 4 parameter maps (colliding with a let name, a column, built-in constants, $left); 7 shapes with every binary operator around and inside the binding arbitrary",
+		Bounds: map[string]string{"quick": "22 use sites (operand of each operator class, under a sign, index base and index, in-list item, call argument, row counts, sort key, join conditions, quoted / qualified / function-name / table-name / alias contexts, built-in constant and function names) x 13 let prefixes (chains of up to three lets, shadowing, signed and compound values, parameter in a let value) x 3 suffixes (lets after the query) x 4 parameter maps (colliding with a let name, a column, built-in constants, $left); 7 shapes with every binary operator around and inside the binding arbitrary",
 			"thorough": "same as quick"},
-		Outside: []string{"parameter texts that are not a single SQL operand (inserted verbatim by contract)", "a bare join key that is also a binding name (the two documented rules conflict)", "more than two lets before the query"},
+		Outside: []string{"parameter texts that are not a single SQL operand (inserted verbatim by contract)", "a bare join key that is also a binding name (the two documented rules conflict)", "more than three lets before the query"},
 		Stubs:   []string{tokStub + " (operator shapes only; the use-site family runs the real lexer on concrete programs)"},
 		Assume:  []string{"reference: lexical scoping evaluated on the real parser's tree (harness/h/c06.go, valmap.go); value algebra as in C01"},
 	})
@@ -307,12 +307,12 @@ func propSpecs() map[string]*PropSpec {
 	})
 	add(&PropSpec{
 		ID: "C03", Title: "joins combine the pipeline so far with the right-hand pipeline",
-		Quick:    []RunSpec{big("H_C03", 1, 3, 3, 4), big("H_C03", 2, 1, 1, 1), big("H_C03two", 0, 1), big("H_C03two", 1, 1), big("H_C03two", 2, 1), big("H_C03two", 3, 1), big("H_C03two", 4, 1), big("H_C03two", 5, 1)},
-		Thorough: []RunSpec{big("H_C03", 1, 5, 5, 7), big("H_C03", 2, 2, 2, 2), big("H_C03two", 0, 2), big("H_C03two", 1, 2), big("H_C03two", 2, 1), big("H_C03two", 3, 1), big("H_C03two", 4, 2), big("H_C03two", 5, 1)},
+		Quick:    []RunSpec{big("H_C03", 1, 3, 3, 4), big("H_C03", 2, 1, 1, 1), big("H_C03two", 0, 1), big("H_C03two", 1, 1), big("H_C03two", 2, 1), big("H_C03two", 3, 1), big("H_C03two", 4, 1), big("H_C03two", 5, 1), big("H_C03two", 6, 1), big("H_C03two", 7, 1)},
+		Thorough: []RunSpec{big("H_C03", 1, 5, 5, 7), big("H_C03", 2, 2, 2, 2), big("H_C03two", 0, 2), big("H_C03two", 1, 2), big("H_C03two", 2, 1), big("H_C03two", 3, 1), big("H_C03two", 4, 2), big("H_C03two", 5, 1), big("H_C03two", 6, 1), big("H_C03two", 7, 1), big("H_C03two", 8, 1)},
 		Covers:   []string{"compiled", "results-compared", "non-empty-result", "join-checked"},
-		Bounds: map[string]string{"quick": "one join: 4 kinds (default, inner, innerunique, leftouter) x 6 condition forms (bare key, explicit equality on the key and on other columns, two conditions, non-equi, key plus one-sided filter) x 3 left prefixes x 3 right-hand pipelines x 4 following operators on all tables A(k,a), B(k,b) of 1 row, and the plain join on all 2-row tables; two joins in sequence and nested in the right-hand side, all 16 kind combinations, 1-row tables (+ C(k,c))",
-			"thorough": "5 prefixes x 5 right pipelines x 7 following operators on 1-row tables; 2x2x2 variants on 2-row tables; two-join shapes on 2-row tables"},
-		Outside: []string{"ClickHouse's executor and join_use_nulls: unmatched left rows carry NULL in the right columns on both sides of the comparison", "quoted bare key names", "more than two joins"},
+		Bounds: map[string]string{"quick": "one join: 4 kinds (default, inner, innerunique, leftouter) x 6 condition forms (bare key, explicit equality on the key and on other columns, two conditions, non-equi, key plus one-sided filter) x 3 left prefixes x 3 right-hand pipelines x 4 following operators on all tables A(k,a), B(k,b) of 1 row, and the plain join on all 2-row tables; two joins in sequence and nested in the right-hand side, all 16 kind combinations, 1-row tables (+ C(k,c)); three joins in sequence and nested three deep, all 64 kind combinations, 1-row tables (+ D(k,d))",
+			"thorough": "5 prefixes x 5 right pipelines x 7 following operators on 1-row tables; 2x2x2 variants on 2-row tables; two-join shapes on 2-row tables; a third three-join shape (nested + sequential with count)"},
+		Outside: []string{"ClickHouse's executor and join_use_nulls: unmatched left rows carry NULL in the right columns on both sides of the comparison", "quoted bare key names", "more than three joins"},
 		Stubs:   []string{"nothing stubbed in the code under test"},
 		Assume:  []string{"reference join semantics in harness/h/pipeeval.go (refJoin): inner = all matching pairs in left-major order, innerunique = after removing duplicate left rows, leftouter = plus unmatched left rows"},
 	})
